@@ -60,14 +60,10 @@ Print Assumptions C28_refuted.
    labels go into Command.Platform and Action.Platform in declaration order; nothing sorts either.
    (The harness observes both on the real buildCommand; recorded as notes of the evidence: the
    declaration order of a target's own output_dirs / labels is part of the target's definition.) *)
-Lemma wit_outdirs_perm : decl_perm_full wit_outdirs_1 wit_outdirs_2.
+Example wit_outdirs_perm : decl_perm_full wit_outdirs_1 wit_outdirs_2.
 Proof. repeat split; try reflexivity; try (intros; reflexivity). apply perm_swap. Qed.
-Lemma wit_labels_perm : decl_perm_full wit_labels_1 wit_labels_2.
+Example wit_labels_perm : decl_perm_full wit_labels_1 wit_labels_2.
 Proof. repeat split; try reflexivity; try (intros; reflexivity). apply perm_swap. Qed.
-Lemma wit_decl_ok outdirs labels : decl_ok (wit_decl outdirs labels).
-Proof.
-  split; [apply wit_decl_realizable|split; [constructor|]]. intros m. cbn. constructor; [intros []|constructor].
-Qed.
 
 Theorem C28_refuted_command : ~ C28_action_statement.
 Proof.
